@@ -2,9 +2,13 @@ package c02
 
 import (
 	"encoding/json"
+	"net"
+
 	"fmt"
+	"github.com/mholt/caddy-l4/layer4"
 	"math/rand"
 	"time"
+	"verifharness/vnet"
 
 	"verifharness/drive"
 	"verifharness/fw"
@@ -129,14 +133,20 @@ func runRandom(c *fw.Ctx) {
 		flavor := "route"
 		if i%4 == 3 {
 			flavor = "app"
+		} else if i%4 == 2 {
+			flavor = "wrapper"
 		}
 		var cp *compiled
 		var app *drive.AppRun
+		var wr *wrapperRun
 		var err error
-		if flavor == "route" {
+		switch flavor {
+		case "route":
 			cp, err = compileRoutes(routes)
-		} else {
+		case "app":
 			app, err = drive.StartApp(drive.J(routesJSON("T", routes)), "30s")
+		default:
+			wr, err = startWrapper(routes)
 		}
 		if err != nil {
 			c.Violation("C02 config rejected", err.Error(), routes)
@@ -153,8 +163,10 @@ func runRandom(c *fw.Ctx) {
 				if herr != nil {
 					report(c, cs, rec, []violation{{"handler-error", herr.Error()}})
 				}
-			} else {
+			} else if flavor == "app" {
 				rec, closed = playApp(app, cs)
+			} else {
+				rec, closed = wr.play(cs)
 			}
 			vs := checkTrace(routes, s, rec, flavor, closed)
 			nt := rec.Count("enter", "") > 0 || rec.Count("fallback", "") > 0
@@ -173,7 +185,59 @@ func runRandom(c *fw.Ctx) {
 		if app != nil {
 			app.Stop()
 		}
+		if wr != nil {
+			wr.stop()
+		}
 	}
+}
+
+// wrapperRun drives the route list through the listener wrapper: the fallback is the wrapped listener's Accept.
+type wrapperRun struct {
+	base *vnet.Listener
+	ln   net.Listener
+	stop func()
+}
+
+func startWrapper(routes []*Route) (*wrapperRun, error) {
+	ctx, cancel := hmods.NewContext()
+	lw, err := hmods.LoadWrapper(ctx, fmt.Sprintf(`{"routes":%s,"matching_timeout":"30s"}`, drive.J(routesJSON("T", routes))))
+	if err != nil {
+		cancel()
+		return nil, err
+	}
+	w := &wrapperRun{base: vnet.NewListener(vnet.UniqueName("c02lw"))}
+	w.ln = lw.WrapListener(w.base)
+	w.stop = func() { _ = w.ln.Close(); cancel() }
+	go func() {
+		fb := &hmods.Fallback{Name: "fb", Read: true, BufSize: 5}
+		for {
+			cn, err := w.ln.Accept()
+			if err != nil {
+				return
+			}
+			go func() {
+				if cx, ok := cn.(*layer4.Connection); ok {
+					_ = fb.Handle(cx) // records the fallback event and reads the stream to EOF
+				}
+				_ = cn.Close()
+			}()
+		}
+	}()
+	return w, nil
+}
+
+func (w *wrapperRun) play(cs *Case) (*hmods.ConnRec, bool) {
+	appCtr++
+	id := fmt.Sprintf("c02lw-%d", appCtr)
+	rec := hmods.Track(id)
+	defer hmods.Untrack(id)
+	client, server := drive.NewPair(id)
+	w.base.Inject(server)
+	_ = drive.WriteSegments(client, cs.S, cs.Segs, 0, 0)
+	_ = client.CloseWrite()
+	closed := client.WaitPeerClosed(20 * time.Second)
+	_ = client.Close()
+	return rec, closed
 }
 
 var appCtr int
